@@ -65,7 +65,7 @@ Print Assumptions C03b_parse_event_shape.
 
 (* C05c — COMPOSITION parse -> build -> XML generator -> XML reader, at model level.
    PARTIAL in the node kinds exactly as C05_read_enc_partial (elements and text; no CDATA, no embedded documents:
-   implied here by no_data) and under its hypotheses on the tree (node_ok: names are XML names, text is XML
+   implied here by no_data) and under its hypotheses on the tree (node_ok_g: names are XML names, text is XML
    characters, ...), which are properties of the document's strings that WBXML does not guarantee.
    For a well-formed d without <Data> elements: the bytes serialize d are parsed, the tree is built, converted to
    the generator's tree type (Model/TreeConv.v), written as XML in any mode and read back: the reader returns the
@@ -78,7 +78,7 @@ Theorem C05c_parse_build_enc_read_partial : forall tbl d evs,
     /\ (forall ef, build tbl (S ef) evs = BOk (mk_wtree lid cs (Some (TElt t a (merge_text ch)))))
     /\ forall l o out,
         EncXmlProofs.lang_ok (EncXml.xlang_of l) = true ->
-        EncXmlProofs.node_ok (EncXml.xlang_of l) o EncXml.proot None (to_xnode tbl l (TElt t a (merge_text ch))) = true ->
+        EncXmlIndent.node_ok_g (EncXml.xlang_of l) o EncXml.proot None (to_xnode tbl l (TElt t a (merge_text ch))) = true ->
         EncXml.enc_xml_opts (EncXml.xlang_of l) o [to_xnode tbl l (TElt t a (merge_text ch))] = EncXml.XOk out ->
         exists c,
           forall fuel, (EncXmlProofs.node_fuel (to_xnode tbl l (TElt t a (merge_text ch))) + 2 <= fuel)%nat ->
